@@ -3,6 +3,7 @@
    pddcurve <pmin pnom e p>        -> fraction a1 b1 c1 d1 a2 b2 c2 d2   (coefficients through the GENERATED spline code)
    leakrow <tank:0|1> <elev:p/q> <h rate elev a b c d area cd>                          -> residual of `leakRowG`
    leakrate <cd area p>            -> rate a b c d
+   leakops <op;op;...>   op = add:<area p/q>:<cd p/q>:<start|->:<end|->  | remove | fs | fe   -> state after each op, '|'-separated
    mb <demand> <leak:0|1> <rate> <nin> <in...> <nout> <out...>                           -> value of `mbRow`
 -/
 import WntrModel.Model.Rows
@@ -33,6 +34,34 @@ def envOf (vars params : List Float) : Env Float :=
 def twoG : Rat := (5522539043063071 : Rat) / 281474976710656
 
 def co4 (t : Float × Float × Float × Float) : List Float := [t.1, t.2.1, t.2.2.1, t.2.2.2]
+
+def parseOptInt (s : String) : Option (Option Int) := if s == "-" then some none else some <$> s.toInt?
+
+def parseLeakOp (s : String) : Option LeakOp :=
+  match s.splitOn ":" with
+  | ["add", a, c, st, en] => do
+    let a ← parseRat a
+    let c ← parseRat c
+    let st ← parseOptInt st
+    let en ← parseOptInt en
+    some (.add a c st en)
+  | ["remove"] => some .remove
+  | ["fs"] => some .fireStart
+  | ["fe"] => some .fireEnd
+  | _ => none
+
+def showOptInt : Option Int → String
+  | none => "-"
+  | some i => toString i
+
+def showRat (r : Rat) : String := s!"{r.num}/{r.den}"
+
+def showLeakState (s : LeakState) (o : Outcome) : String :=
+  s!"{s.leak} {s.status} {showRat s.area} {showRat s.cd} {showOptInt s.startCtl} {showOptInt s.endCtl} {if o == .ok then "ok" else "ValueError"}"
+
+def runLeakOps (s : LeakState) : List LeakOp → List String
+  | [] => []
+  | op :: rest => let (t, o) := s.step op; showLeakState t o :: runLeakOps t rest
 
 def handle (line : String) : String :=
   match line.trimAscii.toString.splitOn " " with
@@ -74,6 +103,10 @@ def handle (line : String) : String :=
       let k := GenC07.cubicSpline O i.1 i.2.1 i.2.2.1 i.2.2.2.1 i.2.2.2.2.1 i.2.2.2.2.2
       showFs (leakRate O cd area δ s (O.ofRat twoG) k p :: co4 k)
     | _ => "bad-op"
+  | ["leakops", ops] =>
+    match (ops.splitOn ";").mapM parseLeakOp with
+    | some ops => "|".intercalate (runLeakOps {} ops)
+    | none => "bad-op"
   | "mb" :: dem :: leak :: rate :: rest =>
     match parseF dem, parseF rate, rest with
     | some dem, some rate, nin :: rest2 =>
